@@ -81,7 +81,8 @@ class CallMixin:
     def method_call(self, recv: T, name: str, args, kw, fr: Frame, node) -> Optional[T]:
         k = recv.kind
         # record.replace(**kw) / namedtuple._replace
-        if name in ("replace", "_replace") and not args and self._recordish(recv):
+        if name in ("replace", "_replace") and not args and kw and "**" not in kw and (
+                self._recordish(recv) or recv.kind not in ("ext", "mod", "cls", "const")):
             out = recv
             for n, v in kw.items():
                 out = self.mk_update(out, n, v)
